@@ -36,6 +36,17 @@ pub mod parse;
 mod parse;
 mod router;
 
+/// Verification hooks: the real packet parser on a byte string, the token bucket with a
+/// caller-supplied clock, and a thin driver around the cache's private entry points.
+#[cfg(feature = "verif")]
+pub fn verif_parse(pkt: &[u8]) -> Result<dnspkt::DNSPkt, String> {
+    parse::PktParser::new(pkt).get_dns()
+}
+#[cfg(feature = "verif")]
+pub use bucket::{Clock as VerifClock, GenericTokenBucket as VerifTokenBucket};
+#[cfg(feature = "verif")]
+pub use cache::verif as verif_cache;
+
 use bytes::BytesMut;
 use tokio_util::codec::Decoder;
 
